@@ -59,19 +59,39 @@ pub async fn exec(a: &Args) -> Args {
     } else {
         None
     };
-    let (server, addr) = wt_server(transport);
-    let ep = raw_client(None);
-    let (app, raw) = tokio::join!(wt_accept(&server), raw_establish(&ep, addr, "/s"));
-    let (conn, mut raw) = match (app, raw) {
-        (Ok(c), Ok(r)) => (c, r),
-        (a, r) => return vec![vec![2], crate::b2s(&format!("setup failed: {:?} / {:?}", a.err(), r.err().map(|e| e)))],
+    // a[0][3] = 1: the library is the client, the raw peer the server (same script on the same stream)
+    let client_role = a[0].get(3).copied().unwrap_or(0) == 1;
+    let mut guards: (Option<wtransport::Endpoint<wtransport::endpoint::endpoint_side::Server>>, Option<wtransport::quinn::Endpoint>, Option<wtransport::Endpoint<wtransport::endpoint::endpoint_side::Client>>) = (None, None, None);
+    let (conn, mut raw) = if client_role {
+        match client_establish("/s", transport).await {
+            Ok((c, r, rep, cl)) => {
+                guards.1 = Some(rep);
+                guards.2 = Some(cl);
+                (c, r)
+            }
+            Err(e) => return vec![vec![2], crate::b2s(&format!("setup failed: {}", e))],
+        }
+    } else {
+        let (server, addr) = wt_server(transport);
+        let ep = raw_client(None);
+        let (app, raw) = tokio::join!(wt_accept(&server), raw_establish(&ep, addr, "/s"));
+        guards.0 = Some(server);
+        guards.1 = Some(ep);
+        match (app, raw) {
+            (Ok(c), Ok(r)) => (c, r),
+            (a, r) => return vec![vec![2], crate::b2s(&format!("setup failed: {:?} / {:?}", a.err(), r.err().map(|e| e)))],
+        }
+    };
+    let close_all = |g: &(Option<wtransport::Endpoint<wtransport::endpoint::endpoint_side::Server>>, Option<wtransport::quinn::Endpoint>, Option<wtransport::Endpoint<wtransport::endpoint::endpoint_side::Client>>)| {
+        if let Some(s) = &g.0 { s.close(vi(0), b""); }
+        if let Some(e) = &g.1 { e.close(qvi(0), b""); }
+        if let Some(c) = &g.2 { c.close(vi(0), b""); }
     };
     if mode == 6 {
         // every handle of the application goes away: the peer must see the connection end
         drop(conn);
         let seen = raw_wait_closed(&raw.conn, Duration::from_millis(1500)).await;
-        server.close(vi(0), b"");
-        ep.close(qvi(0), b"");
+        close_all(&guards);
         return vec![vec![1], seen.0, seen.1];
     }
     // a stream the application has written to but not finished when the connection ends
@@ -146,8 +166,7 @@ pub async fn exec(a: &Args) -> Args {
     }
     out.push(fins[0].clone());
     out.push(fins[1].clone());
-    server.close(vi(0), b"");
-    ep.close(qvi(0), b"");
+    close_all(&guards);
     out
 }
 
@@ -368,6 +387,23 @@ pub fn generate(rng: &mut Rng, thorough: bool) -> Vec<Case> {
     cs.push(Case::new(601, vec![vec![5, 0, 7], vec![], vec![]], "idle-timeout"));
     cs.push(Case::new(601, vec![vec![5, 0, 0], vec![], vec![]], "idle-timeout"));
     cs.push(Case::new(601, vec![vec![6, 0, 0], vec![], vec![]], "handles-dropped"));
+    // the same on the client role: the raw peer is the server and acts on the response stream
+    {
+        let cap = raw_frame(0, &close_capsule(7, b"bye"));
+        let capmax = raw_frame(0, &close_capsule(u32::MAX, "gr\u{fc}\u{df}e".as_bytes()));
+        for m in [7u64, 0] {
+            cs.push(Case::new(601, vec![vec![3, 0, m, 1], b2a(&cap), vec![]], "client-close-capsule"));
+            cs.push(Case::new(601, vec![vec![0, 0, m, 1], vec![], vec![]], "client-clean-fin"));
+            cs.push(Case::new(601, vec![vec![1, 99, m, 1], vec![], vec![]], "client-reset"));
+            cs.push(Case::new(601, vec![vec![2, (1 << 40) + 3, m, 1], vec![], b2a(b"srv-bye")], "client-peer-quic-close"));
+            cs.push(Case::new(601, vec![vec![4, 12, m, 1], vec![], b2a(b"cli-bye")], "client-local-close"));
+        }
+        cs.push(Case::new(601, vec![vec![3, 0, 7, 1], b2a(&capmax), vec![]], "client-close-capsule"));
+        cs.push(Case::new(601, vec![vec![0, 0, 7, 1], vec![0, 5, 1, 2], vec![]], "client-fin-inside-frame"));
+        cs.push(Case::new(601, vec![vec![5, 0, 7, 1], vec![], vec![]], "client-idle-timeout"));
+        cs.push(Case::new(601, vec![vec![6, 0, 0, 1], vec![], vec![]], "client-handles-dropped"));
+        cs.push(Case::new(601, vec![vec![3, 0, 7, 1], b2a(&raw_frame(0x21, &[])), vec![]], "client-stays-open"));
+    }
     // nothing happens: calls stay pending (the model must say so too)
     cs.push(Case::new(601, vec![vec![3, 0, 7], b2a(&raw_frame(0x21, &[])), vec![]], "stays-open"));
     let _ = rng.next();
